@@ -153,7 +153,7 @@ fn ranges<S: PageSize>(out: &mut Out, rng: &mut Rng, fuel: u64) {
 }
 
 pub fn run(out: &mut Out, rng: &mut Rng, tier: Tier) {
-    for _ in 0..tier.n(60_000, 5_000_000) {
+    for _ in 0..tier.n(60_000, 2_000_000) {
         let a = rng.canon();
         out.input_class(classify(a));
         let n = offset_for(rng, a);
@@ -190,19 +190,19 @@ pub fn run(out: &mut Out, rng: &mut Rng, tier: Tier) {
         let q = rng.phys();
         out.emit("pa_subaddr", &[p, q], &fmt_r(guard(|| pa - PhysAddr::new(q))), p != q);
     }
-    for _ in 0..tier.n(20_000, 2_000_000) {
+    for _ in 0..tier.n(20_000, 1_000_000) {
         page_arith::<Size4KiB>(out, rng);
         page_arith::<Size2MiB>(out, rng);
         page_arith::<Size1GiB>(out, rng);
     }
     let fuel = tier.n(300, 2001);
-    for _ in 0..tier.n(3_000, 100_000) {
+    for _ in 0..tier.n(3_000, 30_000) {
         ranges::<Size4KiB>(out, rng, fuel);
         ranges::<Size2MiB>(out, rng, fuel);
         ranges::<Size1GiB>(out, rng, fuel);
     }
     // 2 MiB range -> 4 KiB range
-    for _ in 0..tier.n(5_000, 500_000) {
+    for _ in 0..tier.n(5_000, 200_000) {
         let s = Page::<Size2MiB>::containing_address(VirtAddr::new(rng.canon()));
         let e = if rng.chance(1, 2) {
             let d = rng.below(1000);
